@@ -35,7 +35,18 @@ type solveResult struct {
 	out    string
 }
 
+var solverSem = make(chan struct{}, 16)
+
 func runSolver(ctx context.Context, sp solverSpec, file string, secs int) solveResult {
+	select {
+	case solverSem <- struct{}{}:
+	case <-ctx.Done():
+		return solveResult{"timeout", sp.name, 0, ""}
+	}
+	defer func() { <-solverSem }()
+	if ctx.Err() != nil {
+		return solveResult{"timeout", sp.name, 0, ""}
+	}
 	t0 := time.Now()
 	cctx, cancel := context.WithTimeout(ctx, time.Duration(secs+2)*time.Second)
 	defer cancel()
